@@ -49,7 +49,7 @@ REQUIRED = ('decisions_checked', 'raise_intervals_probed', 'cap_refusals',
 BETTING = ('Folding', 'CheckingOrCalling', 'BringInPosting',
            'CompletionBettingOrRaisingTo')
 CUSTOMS = ('kuhn', 'draw5', 'stud5', 'greek', 'holdem8', 'plo8', 'badugi1',
-           'razzdraw', 'random')
+           'razzdraw', 'random', 'openstud')
 
 
 def _q_fold(state, mode):
